@@ -68,6 +68,8 @@ def excluded_fields(cls):
       nm = fn.attr if isinstance(fn, ast.Attribute) else getattr(fn, 'id', '')
       if nm == 'field':
         c, h = _kw(st.value, 'compare'), _kw(st.value, 'hash')
+        if _is_false(_kw(st.value, 'init') or ast.Constant(value=True)):
+          continue   # not a constructor argument: derived / scratch storage (memo dicts, lazily filled tables), not configuration
         if eq is None and c is not None and _is_false(c):
           out.append((st.target.id, st.lineno, 'dataclasses.field(compare=False)'))
         elif hs is None and h is not None and _is_false(h) and not (c is not None and _is_false(c)):
